@@ -194,6 +194,17 @@ func (t *ZeroAllocTokenizer) AddToken(tokenType int, value string, line int) {
 	t.tokenBuffer = append(t.tokenBuffer, token)
 }
 
+// escapedAt reports whether the byte at position i of s is escaped: preceded by
+// an odd number of backslashes. In 'a\\' the closing quote follows an escaped
+// backslash and ends the literal; in 'a\” the quote itself is escaped.
+func escapedAt(s string, i int) bool {
+	n := 0
+	for i-1-n >= 0 && s[i-1-n] == '\\' {
+		n++
+	}
+	return n%2 == 1
+}
+
 // GetStringConstant checks if a string exists in our constants and returns
 // the canonical version to avoid allocation
 func (t *ZeroAllocTokenizer) GetStringConstant(s string) string {
@@ -231,7 +242,7 @@ func (t *ZeroAllocTokenizer) TokenizeExpression(expr string) []Token {
 		c := t.source[t.position]
 
 		// Handle string literals
-		if (c == '"' || c == '\'') && (t.position == 0 || t.source[t.position-1] != '\\') {
+		if (c == '"' || c == '\'') && !escapedAt(t.source, t.position) {
 			if inString && c == stringDelimiter {
 				// End of string, add the string token
 				value := t.source[stringStart:t.position]
@@ -843,7 +854,7 @@ func (t *ZeroAllocTokenizer) tokenizeObjectContents(content string) {
 		c := content[i]
 
 		// Handle string literals
-		if (c == '"' || c == '\'') && (i == 0 || content[i-1] != '\\') {
+		if (c == '"' || c == '\'') && !escapedAt(content, i) {
 			if inString && c == stringDelim {
 				inString = false
 			} else if !inString {
